@@ -16,8 +16,64 @@ fn lens<A: Cx>(d: &mut Drv<A>, scale: usize) -> Vec<usize> {
     v
 }
 
+/// one call delivering more than 32768 bits (512 machine words), and more than 65536
+fn huge<A: Cx>(d: &mut Drv<A>, scale: usize) -> Vec<usize> {
+    let w = A::BITS as usize;
+    let mut v = vec![32768 / w + 50 + d.rng.below(30)];
+    if scale > 1 {
+        v.push(65536 / w + 70);
+    }
+    v
+}
+
 pub fn run<A: Cx>(d: &mut Drv<A>, focus: &str, scale: usize) {
     let codes = d.codes();
+    // ---- single calls that move more than 512 words at once: text parsing, collect, extend, copies
+    if matches!(focus, "c01" | "c06" | "c02" | "c07" | "c18" | "c04") {
+        for n in huge(d, scale) {
+            let t = d.rand_syms(n);
+            match focus {
+                "c01" => {
+                    let txt = d.rand_text(n);
+                    let entry = *d.rng.pick(&["str", "bytes", "collect", "fromstr"]);
+                    d.emit(json!({"op": "parse", "dst": 1, "c": A::NAME, "entry": entry, "bytes": txt}));
+                    d.emit(json!({"op": "parse", "dst": 2, "c": A::NAME, "entry": "loosecollect", "adaptor": "filter", "junk": 5, "bytes": txt}));
+                }
+                "c06" => {
+                    let via = *d.rng.pick(&["iter", "vec", "extendtrait", "looseextend"]);
+                    d.emit(json!({"op": "fromsyms", "dst": 1, "c": A::NAME, "via": via, "adaptor": "filter", "junk": 3, "syms": t}));
+                    let more = d.rand_syms(n);
+                    d.emit(json!({"op": "extend", "dst": 1, "syms": more}));
+                    d.emit(json!({"op": "toowned", "dst": 2, "src": sl(1, 5, 2 * n - 3), "via": "collect"}));
+                    d.emit(json!({"op": "append", "dst": 2, "src": sl(1, 1, n)}));
+                }
+                "c02" => {
+                    d.emit(json!({"op": "fromsyms", "dst": 1, "c": A::NAME, "via": "iter", "syms": t}));
+                    d.emit(json!({"op": "toowned", "dst": 2, "src": sl(1, 3, n), "via": "to_owned"}));
+                    d.emit(json!({"op": "eq", "x": {"kind": "seq", "src": whole(2)}, "y": {"kind": "slice", "src": sl(1, 3, n)}}));
+                    d.emit(json!({"op": "hash", "x": {"kind": "seq", "src": whole(2)}}));
+                    d.emit(json!({"op": "hash", "x": {"kind": "refslice", "src": sl(1, 3, n)}}));
+                }
+                "c07" => {
+                    d.emit(json!({"op": "fromsyms", "dst": 1, "c": A::NAME, "via": "iter", "syms": t}));
+                    for tf in crate::scen::c07::transforms::<A>() {
+                        d.emit(json!({"op": "copying", "dst": 2, "src": sl(1, 2, n - 1), "t": tf, "via": "slice"}));
+                    }
+                }
+                "c18" => {
+                    d.emit(json!({"op": "fromsyms", "dst": 1, "c": A::NAME, "via": "iter", "syms": t}));
+                    d.emit(json!({"op": "serde", "dst": 2, "r": 1, "fmt": "bincode"}));
+                    d.emit(json!({"op": "serde", "dst": 2, "r": 1, "fmt": "json_reader"}));
+                }
+                _ => {
+                    d.emit(json!({"op": "fromsyms", "dst": 1, "c": A::NAME, "via": "iter", "syms": t}));
+                    let o = d.emit(json!({"op": "intoraw", "r": 1}));
+                    d.emit(json!({"op": "fromraw", "dst": 2, "c": A::NAME, "n": n, "limbs": o["limbs"]}));
+                }
+            }
+            d.reset();
+        }
+    }
     for n in lens(d, scale) {
         let off = 1 + d.rng.below(70);
         let t = d.rand_syms(off + n + 3);
@@ -176,7 +232,15 @@ pub fn run<A: Cx>(d: &mut Drv<A>, focus: &str, scale: usize) {
             }
             "c12" => {
                 let o2 = d.rng.below(16);
-                let t2 = d.rand_syms(o2 + n);
+                let mut t2 = d.rand_syms(o2 + n);
+                // a long run of the full set N (all-ones words) / of the gap (all-zero words) inside the operand
+                if n > 300 {
+                    let a = o2 + d.rng.below(n - 290);
+                    let fill = if d.rng.chance(1, 2) { 15 } else { 0 };
+                    for v in t2[a..a + 290].iter_mut() {
+                        *v = fill;
+                    }
+                }
                 d.emit(json!({"op": "fromsyms", "dst": 1, "c": A::NAME, "via": "iter", "syms": t2}));
                 let y = sl(1, o2, o2 + n);
                 for (tt, via) in [("or", "ref"), ("and", "ref"), ("or", "owned"), ("and", "ownedcollect")] {
